@@ -173,19 +173,25 @@ def check_C03(run):
     thorough = run.tier == 'thorough'
     cmds = []
     i = 0
-    for tid, S, v in stimuli_values(run, types, big=True, nrandom=8 if thorough else 2):
-        wk = KINDS_W[i % 4] if not (has_kind(S, ("flt",)) and KINDS_W[i % 4] == "constexpr") else "pedantic"
-        items = [{"tid": tid, "v": v}] * (1 if len(json.dumps(v)) > 20000 else 2)
-        c = {"c": "w", "wk": wk, "cap": BIGCAP, "items": items, "nolog": 1}
-        if has_kind(S, ("hnd",)):
-            c["refs"] = refs_for(i)
-        cmds.append(c)
+    for tid, S, v in stimuli_values(run, types, big=True, nrandom=30 if thorough else 2):
+        big_value = len(json.dumps(v)) > 20000
+        # rotating writer kinds; in the thorough tier every writer kind the type can use (tables need Skip, which an
+        # FdWriter does not have; floating point is not constexpr-serialisable)
+        wks = [KINDS_W[i % 4]] if (not thorough or big_value) else [k for k in KINDS_W if not (k == "fd" and needs_skip(S))]
+        for wk in wks:
+            if has_kind(S, ("flt",)) and wk == "constexpr":
+                wk = "pedantic"
+            items = [{"tid": tid, "v": v}] * (1 if big_value else 2)
+            c = {"c": "w", "wk": wk, "cap": BIGCAP, "items": items, "nolog": 1}
+            if has_kind(S, ("hnd",)):
+                c["refs"] = refs_for(i)
+            cmds.append(c)
         run.distinct.add((tid, vf.digest(v)))
         i += 1
     cmds += int_exhaustive_cmds(types, (1, 2) if thorough else (1,))
     cmds = with_resets(cmds) + [{"c": "forms", "n": 72}]
     run.samples = [c for c in cmds if c.get("c") == "w"][:3]
-    run_codec(run, 'C03', cmds)
+    run_codec(run, 'C03', cmds, mc=MC_WIRE)      # W3 (smallest class), W4 (size estimate) on the specification
     return vf.finish(run, rule='every pool type x boundary/random values (written twice) through rotating writer kinds; '
                                'distinct = distinct (type, value)')
 
@@ -328,12 +334,12 @@ def check_C05(run):
     thorough = run.tier == 'thorough'
     rng = random.Random(run.seed)
     per_type = {}
-    for tid, S, v in small_values(run, types, nrandom=4 if thorough else 1):
+    for tid, S, v in small_values(run, types, nrandom=8 if thorough else 1):
         per_type.setdefault(tid, []).append(v)
     groups = []
     for tid, vs in per_type.items():
         S = types[tid]
-        for v in pick(vs, 12 if thorough else 4, rng):
+        for v in pick(vs, 20 if thorough else 4, rng):
             w = {"c": "w", "wk": "pedantic", "cap": BIGCAP, "items": [{"tid": tid, "v": v}], "nolog": 1}
             r = {"c": "rcuts", "tid": tid, "rks": all_reader_kinds(S), "src": "last"}
             handle_opts(S, w, r)
@@ -382,7 +388,7 @@ def check_C06(run):
         wks = ["buffer", "pedantic", {"bounded": "pedantic"}, {"bounded": "buffer"}]
         if not has_kind(S, ("flt",)):
             wks += ["constexpr", {"bounded": "constexpr"}]
-        for v in pick(vs, 10 if thorough else 4, rng):
+        for v in pick(vs, 16 if thorough else 4, rng):
             c = {"c": "wcaps", "tid": tid, "v": v, "wks": wks, "extra": 2}
             cmds.append(c)
             run.distinct.add((tid, vf.digest(v)))
@@ -416,7 +422,7 @@ def check_C10(run):
     groups = []
     for tid, vs in per_type.items():
         S = types[tid]
-        for i, v in enumerate(pick(vs, 8 if thorough else 3, rng)):
+        for i, v in enumerate(pick(vs, 12 if thorough else 3, rng)):
             wk = ["pedantic", "sstream", {"bounded": "pedantic", "limit": BIGCAP}][i % 3]
             rk = ["pedantic", "sstream", {"bounded": "buffer", "limit": BIGCAP}][i % 3]
             w = {"c": "w", "wk": "pedantic", "cap": BIGCAP, "items": [{"tid": tid, "v": v}], "nolog": 1}
@@ -428,7 +434,7 @@ def check_C10(run):
             run.distinct.add((tid, vf.digest(v)))
     cmds = with_group_resets(groups, 10)
     run.samples = groups[0]
-    run_codec(run, 'C10', cmds)
+    run_codec(run, 'C10', cmds, mc=mc_session(run))      # design level: a peer stops at the first error
     # the RPC layer: a fault at every primitive of each of the four pipe ends of a call
     ifaces = rpc_ifaces()
     ipath = os.path.join(run.work, 'ifaces.json')
@@ -441,7 +447,7 @@ def check_C10(run):
             void = m["ret"].get("k") == "void"
             if not m["bound"] and not void:
                 continue
-            for v in gen.values(m["args"])[:3 if thorough else 2]:
+            for v in gen.values(m["args"])[:6 if thorough else 2]:
                 # a method without a return value has no reply: only its request writer can fail on the caller's side
                 for on in (("reqw",) if void else ("reqw", "repr", "reqr", "repw")):
                     for k in range(1, 16):
@@ -476,9 +482,9 @@ def check_C11(run):
         S = types[tid]
         if S["k"] in ("ref",):
             continue
-        chosen = pick(vs, 8 if thorough else 4, rng)
+        chosen = pick(vs, 12 if thorough else 4, rng)
         for i, v in enumerate(chosen):
-            priors = pick(vs, 6 if thorough else 3, rng)
+            priors = pick(vs, 10 if thorough else 3, rng)
             w = {"c": "w", "wk": "pedantic", "cap": BIGCAP, "items": [{"tid": tid, "v": v}], "nolog": 1}
             fresh = {"c": "r", "rk": "pedantic", "src": "last", "items": [{"tid": tid}], "nolog": 1}
             handle_opts(S, w, fresh)
@@ -488,7 +494,7 @@ def check_C11(run):
                 handle_opts(S, None, r)
                 g.append(r)
             # destination left behind by a read of the same bytes that failed at primitive k
-            for k in range(1, 9 if thorough else 6):
+            for k in range(1, 13 if thorough else 6):
                 r = {"c": "r", "rk": "pedantic", "src": "last",
                      "items": [{"tid": tid, "prior": {"kind": "failread", "b": "last", "k": k, "e": 16}}], "nolog": 1}
                 handle_opts(S, None, r)
@@ -549,7 +555,7 @@ def check_C11(run):
             run.distinct.add((tid, n))
     cmds = with_group_resets(groups, 6) + with_group_resets(lgroups, 1)
     run.samples = groups[0][:4]
-    run_codec(run, 'C11', cmds, flavour='asan')
+    run_codec(run, 'C11', cmds, flavour='asan', mc=MC_WIRE)      # Dec is a function of the bytes alone (W1)
     return vf.finish(run, rule='every pool type x pairs (prior value, encoding) with priors produced by assignment, and by reads '
                                'that failed at primitive k; read compared with the read into a fresh object; ASan/UBSan build, '
                                'lifetime ledger of Tracked elements must balance; distinct = distinct (type, value)')
@@ -564,7 +570,7 @@ def hostile_cmds(run, types, thorough, for_c02):
     per_type = {}
     vp = sorted(t for t in types if t.startswith('TV_') or t.startswith('S_TV_') or t.startswith('vec<TV_'))
     vp_keep = set(vp if thorough else vp[::12])
-    for tid, S, v in small_values(run, types, nrandom=2 if thorough else 1, limit_bytes=150):
+    for tid, S, v in small_values(run, types, nrandom=4 if thorough else 1, limit_bytes=150):
         if is_unbounded(S) or (tid in vp and tid not in vp_keep):
             continue     # (the table version pool is C07/C08's subject; a sample of it is enough here)
         per_type.setdefault(tid, []).append(v)
@@ -577,7 +583,7 @@ def hostile_cmds(run, types, thorough, for_c02):
         S = types[tid]
         if S["k"] == "ref" or (S["k"] in ("opt", "res") and False):
             pass
-        for v in pick(vs, 5 if thorough else 2, rng):
+        for v in pick(vs, 8 if thorough else 2, rng):
             w = {"c": "w", "wk": "pedantic", "cap": BIGCAP, "items": [{"tid": tid, "v": v}], "nolog": 1}
             hopts = {}
             if has_kind(S, ("hnd",)):
@@ -598,8 +604,13 @@ def hostile_cmds(run, types, thorough, for_c02):
             if n % (2 if thorough else 6) == 0:
                 for hb in range(256):
                     muts.append(([{"op": "set", "at": 0, "val": hb}], True))
+            if thorough and n % 4 == 1:
+                # every byte value at the next three positions as well (first length / count / nested prefix bytes)
+                for pos in (1, 2, 3):
+                    for hb in range(256):
+                        muts.append(([{"op": "set", "at": pos, "val": hb}], True))
             # multi-byte damage: length fields overwritten with 2^k-1, splices, truncations
-            for _ in range(24 if thorough else 8):
+            for _ in range(60 if thorough else 8):
                 m = []
                 for _ in range(rng.randrange(1, 4)):
                     op = rng.choice(["set", "xor", "insert", "erase", "trunc"])
@@ -700,7 +711,7 @@ def hostile_cmds(run, types, thorough, for_c02):
         if is_unbounded(S) or (tid in vp and tid not in vp_keep):
             continue
         g = []
-        for _ in range(30 if thorough else 8):
+        for _ in range(100 if thorough else 8):
             b = [rng.choice(alpha) for _ in range(rng.randrange(0, 7))]
             item = {"tid": tid}
             if for_c02:
@@ -822,7 +833,7 @@ def check_C16(run):
     # Apalache with the 64-bit one (inductive invariant: every limit, index and request size)
     fut.append(start_model_check(run, 'MC_Confine', 'MC_Confine.cfg', workers=4, label='confine'))
     fut.append(_bg.submit(vf.apalache_inductive, run, 'Confine', 'CInit64', 'Init', 'IndInit', 'IndInv', 'Safety'))
-    seqs = gen_sequences(run, 2, 3, 6000 if thorough else 1500, rng)
+    seqs = gen_sequences(run, 2, 3, 20000 if thorough else 1500, rng)
     cmds = []
     k = 0
     for side in ("r", "w"):
@@ -849,7 +860,7 @@ def check_C16(run):
             for cfg in (configs if thorough else configs[k % 3::3]):
                 emit(seq, cfg)
         # sampled sequences of length 3 and random longer ones, rotating configurations
-        for seq in sample + random_sequences(rng, side, 3000 if thorough else 600, 12):
+        for seq in sample + random_sequences(rng, side, 10000 if thorough else 600, 12):
             for j in range(3 if thorough else 1):
                 emit(seq, configs[(k * 7 + j) % len(configs)])
     cmds = with_resets(cmds, 200)
@@ -869,7 +880,7 @@ def check_C17(run):
     rng = random.Random(run.seed)
     fut = [start_model_check(run, 'MC_IO', 'MC_IO_%s%s.cfg' % (s, '_thorough' if run.tier == 'thorough' else ''), workers=8,
                               label='io' + s, timeout=2400) for s in ("r", "w")]
-    seqs = gen_sequences(run, 2, 3, 4000 if thorough else 1000, rng)
+    seqs = gen_sequences(run, 2, 3, 12000 if thorough else 1000, rng)
     cmds = []
     k = 0
     for side in ("r", "w"):
@@ -877,7 +888,7 @@ def check_C17(run):
         kinds = (["pedantic", "buffer", "sstream", "fstream", "fd", "fdburst", "fdbad"] if side == "r"
                  else ["pedantic", "buffer", "constexpr", "sstream", "fd", "lstream", "fdfull"])
         lens = (0, 1, 2, 3, 4, 6, 12) if side == "r" else (0, 1, 2, 3, 4, 6)
-        allseqs = list(full) + list(sample) + random_sequences(rng, side, 2000 if thorough else 500, 10)
+        allseqs = list(full) + list(sample) + random_sequences(rng, side, 6000 if thorough else 500, 10)
         for seq in allseqs:
             for ln in (lens if (thorough or len(seq) <= 2) else (lens[k % 6],)):
                 for kind in kinds:
@@ -955,10 +966,10 @@ def check_C18(run):
     keys = [(0, 0), ((1 << 64) - 1, (1 << 64) - 1), (0x0706050403020100, 0x0f0e0d0c0b0a0908), (1, 0), (0, 1 << 63),
             (0xbaadf00ddeadbeef, 0x0123456789abcdef), (0xdeadcafebaadf00d, 0x0123456789abcdef)]
     cmds = [{"c": "names"}, {"c": "sip", "ctarrays": 1}]
-    lengths = list(range(0, 81)) + list(range(250, 261)) if thorough else list(range(0, 34)) + [63, 64, 65, 255, 256, 257]
+    lengths = list(range(0, 131)) + list(range(250, 261)) + [511, 512, 513, 1023, 1024, 4099] if thorough else list(range(0, 34)) + [63, 64, 65, 255, 256, 257]
     k = 0
     for n in lengths:
-        for variant in range(3 if thorough else 1):
+        for variant in range(6 if thorough else 1):
             k0, k1 = keys[k % len(keys)] if variant == 0 else (rng.getrandbits(64), rng.getrandbits(64))
             if variant == 0 and k % 3 == 0:
                 msg = [(i * 37 + 0x80 + n) % 256 for i in range(n)]     # many bytes >= 0x80
@@ -1131,7 +1142,7 @@ def life_cmds(run, machines, thorough, rng):
         for em in exec_machines:
             for h in hists:
                 cmds.append({"c": "obj", "machine": em, "ops": h})
-            for _ in range(3000 if thorough else 400):
+            for _ in range(8000 if thorough else 400):
                 cmds.append({"c": "obj", "machine": em, "ops": random_life_ops(rng, spec_machine, rng.choice([20, 50, 120] if thorough else [20, 40]))})
     return cmds
 
@@ -1352,8 +1363,9 @@ def check_C08(run):
     rks = ["pedantic", "sstream", "buffer", {"bounded": "pedantic", "limit": BIGCAP}, "fstream", {"bounded": "sstream", "limit": BIGCAP}]
     cmds = []
     for i, m in enumerate(muts):
-        cmds.append({"c": "r", "rk": rks[i % len(rks)], "src": {"b": m["b"]}, "items": [{"tid": m["tid"]}], "nolog": 1,
-                     "tag": {"cat": True, "label": m["label"]}})
+        for rk in (rks if thorough else [rks[i % len(rks)]]):      # thorough: every mutant through every reader kind
+            cmds.append({"c": "r", "rk": rk, "src": {"b": m["b"]}, "items": [{"tid": m["tid"]}], "nolog": 1,
+                         "tag": {"cat": True, "label": m["label"]}})
         run.distinct.add((m["tid"], m["label"]))
     cmds = with_resets(cmds, 100)
     run.samples = cmds[1:4]
@@ -1389,7 +1401,7 @@ def check_C09(run):
     fung = json.loads(open(t1).readline())
     if fung.get("tids") != tids:
         raise vf.MachineryError('fung type list of the executor differs from fung_types.json')
-    gen = vals.Gen(seed=run.seed, big=False, nrandom=3 if thorough else 1)
+    gen = vals.Gen(seed=run.seed, big=False, nrandom=8 if thorough else 1)
     cmds = [{"c": "fung"}]
     npairs = 0
     for i, a in enumerate(tids):
@@ -1489,7 +1501,7 @@ def check_C14(run):
     ipath = os.path.join(run.work, 'ifaces.json')
     with open(ipath, 'w') as f:
         json.dump(ifaces, f)
-    gen = vals.Gen(seed=run.seed, nrandom=4 if thorough else 1)
+    gen = vals.Gen(seed=run.seed, nrandom=12 if thorough else 1)
     cmds = []
     for iname, I in ifaces.items():
         argvals = {}
@@ -1510,12 +1522,13 @@ def check_C14(run):
             i += ln
         # (2) truncations and single-byte corruptions of requests, followed by a good call on the same connection
         for cn in names:
-            for v in argvals[cn][:3 if thorough else 2]:
+            for v in argvals[cn][:6 if thorough else 2]:
                 good = {"m": names[0], "args": argvals[names[0]][0]}
                 for k in range(0, 26 if thorough else 14):
                     cmds.append({"c": "rpc", "iface": iname, "calls": [{"m": cn, "args": v, "mut": [{"op": "trunc", "k": k}]}, good]})
-                for pos in range(0, 14):
-                    for hb in ((0x00, 0x7f, 0x80, 0x83, 0xba, 0xbd, 0xff) if thorough or pos < 10 else (0xff,)):
+                for pos in range(0, 24 if thorough else 14):
+                    for hb in ((0x00, 0x01, 0x7f, 0x80, 0x81, 0x82, 0x83, 0x84, 0x87, 0xb9, 0xba, 0xbc, 0xbd, 0xbe, 0xc0, 0xff) if thorough
+                               else (0x00, 0x7f, 0x80, 0x83, 0xba, 0xbd, 0xff) if pos < 10 else (0xff,)):
                         cmds.append({"c": "rpc", "iface": iname,
                                      "calls": [{"m": cn, "args": v, "mut": [{"op": "set", "at": pos, "val": hb}]}, good]})
                 # two requests delivered back to back: the dispatcher must consume exactly its own
